@@ -74,6 +74,19 @@ Theorem C16_answers_follow_program :
 Proof. exact run_program. Qed.
 Print Assumptions C16_answers_follow_program.
 
+(* no query ends in an exception (every query asked and scheduled to completion gets a tree,
+   which by the theorems above is its own): for EVERY mode -- also the non-caching
+   AutoOptimizer as it stands --, every schedule, provided the optimizer is not cache_only and
+   no trial fails (all scores finite; a search whose trials all fail raises KeyError('tree')
+   in the code and in the model) *)
+Theorem C16_no_query_raises :
+  forall cfg orc, c_cache_only cfg = false -> (forall q o k, o_score orc q o k <> None) ->
+  forall sched ths, NoDup (map t_id ths) -> Forall fresh_thread ths ->
+  forall st' ths' tr, run cfg orc sched (init_state cfg) ths = (st', ths', tr) ->
+  Forall no_raise ths'.
+Proof. exact no_query_raises. Qed.
+Print Assumptions C16_no_query_raises.
+
 (* the hypothesis on thread ids cannot be dropped: with one id for two live threads a shared
    reusable optimizer hands a thread the other thread's tree (CPython guarantees distinct
    idents for live threads; the check asserts it) *)
